@@ -5,6 +5,7 @@ from .. import core, lmm
 class C16(core.Prop):
     id = "C16"
     drivers = ["lmm_driver"]
+    ready = True
     technique = "property-based testing: differential against an exact-rational progressive-filling max-min solver plus a fairness characterisation predicate"
     sizes = {"quick": 15000, "thorough": 400000}
     rule = ("Same histories as C15, solver in {maxmin, bmf}. After every solve: (a) maxmin: every enabled consuming variable below its bound "
